@@ -12,14 +12,19 @@
 // Both: runs of operations with no observation in between, then one observer
 // drawn at random looks first (windows.go); sequences from All() kept and used
 // later, twice, re-entrantly, interleaved, with a panicking yield (kept.go);
-// lists of 15..65537 nodes (big.go).
+// lists of 15..65537 nodes (big.go); two SLists that hand removed nodes to each
+// other (pair.go).
 package main
 
-import "verif/ev"
+import (
+	"fmt"
+
+	"verif/ev"
+)
 
 func main() {
 	r := ev.New("C13")
-	r.Rule("one case = a seeded operation sequence. dlist/mix, dlist/copy: 8..160 operations (Push*/Insert*/Insert*Node*/Remove/Move*/Push*DList/Init/Value writes) over 1..3 DLists, each a never-initialised zero value or NewDoubly(), node and mark drawn from members, members of another list, removed nodes, never-inserted nodes and nodes orphaned by another list's Init; dlist/small: for one size 0..5 every operation x every node/mark choice on a fresh fixture + 3 random operations; slist/mix: 8..160 operations with indices weighted to -1, 0, len-1, len, len+1, +-2 and Min/MaxInt; slist/ends: for one size 0..6 and one of 5 build recipes every index-based operation at every index (Swap: every pair) + tail-dependent follow-ups; dlist/window, slist/window: 2..16 runs of 2..12 operations during which nothing is observed (only the mutators' own results are compared; SList: at most one Get in front of or inside the run), possibly as the very first thing that happens to a never-initialised zero value, then one observer drawn at random looks first, then everything is compared; dlist/kept, slist/kept: 10..40 operations during which sequences returned by All() are kept and used later in one of 7 ways (twice, re-entered from their own yield, another one run inside the yield, two iter.Pull iterations advanced alternately, abandoned then rerun, yield that panics followed by more operations); dlist/big, slist/big: a list of 2^k-1, 2^k or 2^k+1 nodes (k = 4..10, 12, 16), 8..14 operations at the ends, the middle and next to power-of-two positions, whole-list copies onto another list and onto itself. distinct = distinct hash of the (operation, list, handle ids / indices, value) sequence; non-trivial = at least two operations that really changed a list relative to an existing node or index (effective insert/move/remove/copy/swap)")
+	r.Rule("one case = a seeded operation sequence. dlist/mix, dlist/copy: 8..160 operations (Push*/Insert*/Insert*Node*/Remove/Move*/Push*DList/Init/Value writes) over 1..3 DLists, each a never-initialised zero value or NewDoubly(), node and mark drawn from members, members of another list, removed nodes, never-inserted nodes and nodes orphaned by another list's Init; dlist/small: for one size 0..5 every operation x every node/mark choice on a fresh fixture + 3 random operations; slist/mix: 8..160 operations with indices weighted to -1, 0, len-1, len, len+1, +-2 and Min/MaxInt; slist/ends: for one size 0..6 and one of 5 build recipes every index-based operation at every index (Swap: every pair) + tail-dependent follow-ups; dlist/window, slist/window: 2..16 runs of 2..12 operations during which nothing is observed (only the mutators' own results are compared; SList: at most one Get in front of or inside the run), possibly as the very first thing that happens to a never-initialised zero value, then one observer drawn at random looks first, then everything is compared; dlist/kept, slist/kept: 10..40 operations during which sequences returned by All() are kept and used later in one of 7 ways (twice, re-entered from their own yield, another one run inside the yield, two iter.Pull iterations advanced alternately, abandoned then rerun, yield that panics followed by more operations); dlist/big, slist/big: a list of 2^k-1, 2^k or 2^k+1 nodes (k = 4..10, 12, 16), 8..14 operations at the ends, the middle and next to power-of-two positions, whole-list copies onto another list and onto itself; slist/pair: 10..80 operations over two SLists, the nodes handed out by Remove/RemoveFront of one list are inserted into the other one (and travel back), after every operation both lists are compared. distinct = distinct hash of the (operation, list, handle ids / indices, value) sequence; non-trivial = at least two operations that really changed a list relative to an existing node or index (effective insert/move/remove/copy/swap)")
 	r.Assume("container/list of the Go standard library is the specification of DList; a node-form insert (PushFrontNode, PushBackNode, InsertNodeBefore, InsertNodeAfter), which container/list does not have, is modelled as the value-form insert of the node's value with the golib node re-paired to the new element")
 	r.Assume("only nodes that are in no list (never inserted, or removed) are handed to the node-form inserts, and a node orphaned by l.Init() is never handed back to l itself (container/list is undefined there); nil nodes are never passed (documented precondition)")
 	r.Assume("SList: the specification is a Go slice; Get/Remove/Swap reject out-of-range indices (nil / no change), InsertAt/InsertNodeAt clamp (i<=0 front, i>=len back) as documented; after Swap the two positions may have exchanged either their values or their nodes")
@@ -34,6 +39,7 @@ func main() {
 	r.Cases("slist/window", r.N(12000, 500000), opt, slistWindow)
 	r.Cases("dlist/kept", r.N(8000, 300000), opt, dlistKept)
 	r.Cases("slist/kept", r.N(8000, 300000), opt, slistKept)
+	r.Cases("slist/pair", r.N(8000, 300000), opt, slistPair)
 	r.Cases("dlist/big", r.N(96, 1000), opt, dlistBig)
 	r.Cases("slist/big", r.N(96, 1000), opt, slistBig)
 	// anti-vacuity floors (a fraction of what the quick tier observes at every seed)
@@ -79,5 +85,103 @@ func main() {
 		r.Require("dlist_kept_use/"+m, 2500)
 		r.Require("slist_kept_use/"+m, 2500)
 	}
+	clauseFloors(r)
 	r.Finish()
+}
+
+// clauseFloors: one floor per (named operation x kind of argument) that the statement and its
+// quantifier speak of, so that no operation can silently stop meeting a kind of handle or index
+// (each a fraction of what the quick tier observes at seeds 1..3).
+func clauseFloors(r *ev.Run) {
+	// DList: "operations given a node that is not (or no longer) in the list are no-ops", "all
+	// choices of node handles including removed and foreign ones": every node- or mark-taking
+	// operation x {member, member of another list, removed, never inserted, orphaned by another list's Init}
+	classFloor := [nArgClasses]int64{aLive: 20000, aForeign: 3000, aRemoved: 3000, aFresh: 3000, aRetired: 250}
+	for _, o := range []int{oRemove, oMoveFront, oMoveBack, oMoveBefore, oMoveAfter} {
+		for a, f := range classFloor {
+			r.Require(dargName[o][0][a], f)
+		}
+	}
+	for _, o := range []int{oInsBefore, oInsAfter, oInsNodeBefore, oInsNodeAfter, oMoveBefore, oMoveAfter} {
+		for a, f := range classFloor {
+			r.Require(dargName[o][1][a], f)
+		}
+	}
+	// node forms: the inserted node is a never-inserted one or one that was removed earlier
+	// (from this list or from another one)
+	for _, o := range []int{oPushFrontNode, oPushBackNode, oInsNodeBefore, oInsNodeAfter} {
+		r.Require(dargName[o][0][aFresh], 15000)
+		r.Require(dargName[o][0][aRemoved], 15000)
+		r.Require("dlist_node_reinserted_after_removal/"+dopName[o], 10000)
+	}
+	r.Require("dlist_node_reinserted_into_another_list", 20000)
+	r.Require("dlist_detached_nav_checked/fresh", 100000)
+	r.Require("dlist_detached_nav_checked/removed", 200000)
+	// "lists copied onto themselves", both variants; copies of another list, which may be an untouched zero value
+	for _, o := range []int{oPushBackList, oPushFrontList} {
+		r.Require("dlist_self_copy_nonempty/"+dopName[o], 20000)
+		r.Require("dlist_other_copy/"+dopName[o], 8000)
+	}
+	r.Require("dlist_copy_source_untouched_zero_value", 400)
+	// "Zero-value lists are ready to use": looked at before anything else happened, and every
+	// operation as the first thing that ever happens to one (observed before / never looked at before)
+	r.Require("dlist_untouched_zero_value_observed", 20000)
+	r.Require("slist_untouched_zero_value_observed", 10000)
+	r.Require("slist_zero_value_lists", 5000)
+	for o := 0; o < nDOps; o++ {
+		if o == oSetValue {
+			continue
+		}
+		r.Require("dlist_zero_value_first_op/"+dopName[o], 150)
+		r.Require("dlist_unobserved_zero_value_first_op/"+dopName[o], 40)
+	}
+	for o := 0; o < nSOps; o++ {
+		if o == sSetValue {
+			continue
+		}
+		r.Require("slist_zero_value_first_op/"+sopName[o], 400)
+		f := int64(100)
+		if o == sGet {
+			f = 25 // Get is an observer: it is the first thing that happens to a list only in slist/kept
+		}
+		r.Require("slist_unobserved_zero_value_first_op/"+sopName[o], f)
+	}
+	// SList: "all indices including out-of-range": every index-taking operation (Swap: each
+	// of its two arguments) x {negative, len, beyond len, the only element, first, last, middle, Min/MaxInt}
+	for x := 0; x < nIdxOps; x++ {
+		for a := 0; a < nIdxClasses; a++ {
+			r.Require(sidxName[x][a], 1500)
+		}
+	}
+	for _, k := range []string{"only-first-index-out-of-range", "only-second-index-out-of-range", "both-indices-out-of-range"} {
+		r.Require("slist_swap_rejected/"+k, 20000)
+	}
+	for _, o := range []int{sPushFrontNode, sPushBackNode, sInsertNodeAt} {
+		r.Require("slist_node_reinserted_after_removal/"+sopName[o], 15000)
+	}
+	// every named method is really called (observers are counted by the *_compared floors)
+	for o := 0; o < nDOps; o++ {
+		r.Require("dlist_op/"+dopName[o], 15000)
+	}
+	for o := 0; o < nSOps; o++ {
+		r.Require("slist_op/"+sopName[o], 30000)
+	}
+	r.Require("dlist_handles_retired_by_init", 200000) // Init of lists that hold nodes
+	r.Require("slist_swap_same_index", 10000)
+	r.Require("slist_value_set_through_handle", 20000)
+	// "lists of every small size": the exhaustive engines see each size
+	for n := 0; n <= 5; n++ {
+		r.Require(fmt.Sprintf("dlist_small_size_%d", n), 40)
+	}
+	for n := 0; n <= 6; n++ {
+		r.Require(fmt.Sprintf("slist_ends_size_%d", n), 40)
+	}
+	// two SLists exchanging nodes (pair.go)
+	r.Require("slist_pair_cases", 2000)
+	r.Require("slist_pair_node_from_other_list_inserted", 3000)
+	r.Require("slist_pair_node_from_other_list_inserted/"+sopName[sInsertNodeAt], 1500)
+	r.Require("slist_pair_node_from_other_list_inserted/"+sopName[sPushBackNode], 900)
+	r.Require("slist_pair_node_from_other_list_inserted/"+sopName[sPushFrontNode], 600)
+	r.Require("slist_pair_node_from_other_list_inserted_in_the_middle", 600)
+	r.Require("slist_pair_other_list_rechecked", 70000)
 }
